@@ -5,23 +5,15 @@ From Coq Require Import String.
 From TT Require Import Lib.Base Model.TextRepr Model.Assertions Spec.C07 Corr.C07
      Proof.C07Repr Proof.C07Names Proof.C07.
 
-(* The model meets the whole statement, for every input outside known finding F21 (C07_refuted_F21).  For a
-   text_repr case the model runs both formulations of text_repr - the literal transliteration text_repr_lit and
-   the per-character text_repr_tok - and observes OBad if they differ; they never do (C07_lit_eq_tok).
-   Remaining gap: for IDesc the model's str()/describe()/get_details() are total by construction; what is checked
-   is the implementation, by sampling. *)
-Theorem C07_holds : forall i : input, wf i -> finding_F21 i = false -> spec_okb i (model i) = true.
+(* The model meets the whole statement, for every input.  For a text_repr case the model runs both formulations
+   of text_repr - the literal transliteration text_repr_lit and the per-character text_repr_tok - and observes OBad
+   if they differ; they never do (C07_lit_eq_tok).  Remaining gap (why PARTIAL): for IDesc the model's
+   str()/describe()/get_details() are total by construction; what is checked is the implementation, by sampling.
+   (Former finding F21 - a failed expectThat in a setUp that then raises did not fail the test - was repaired in
+   /repo by 889980a; the model has the repaired behaviour and the hypothesis is gone.) *)
+Theorem C07_holds : forall i : input, wf i -> spec_okb i (model i) = true.
 Proof. exact model_meets_spec. Qed.
 Print Assumptions C07_holds.
-
-(* Known finding F21 (Spec.C07.finding_F21: setUp raises and an executed expectThat mismatched): _run_core returns
-   after a failed setUp without consulting force_failure, so the statement is false of the faithful model there:
-   expectThat mismatches in setUp, setUp then skips -> the model (and the code) report a skip. *)
-Theorem C07_refuted_F21 :
-  exists i, wf i /\ agree i = true /\ finding_F21 i = true /\ spec_okb i (model i) = false
-            /\ model i = OTest [[false; true]] true Skip [("a", 1)%string].
-Proof. exact refuted_F21. Qed.
-Print Assumptions C07_refuted_F21.
 
 Theorem C07_statement : forall i o, spec_okb i o = true -> Spec i o.
 Proof. exact spec_okb_sound. Qed.
@@ -89,8 +81,8 @@ Theorem C07_run_test : forall p : prog, NoDup (map fst (p_pre p)) ->
 Proof. exact run_test_spec. Qed.
 Print Assumptions C07_run_test.
 
-(* ... and that outcome is one the statement allows whenever the input is outside finding F21 *)
-Theorem C07_outcome : forall p : prog, setup_raises p && expect_failed p = false -> outcome_okb p (model_outcome p) = true.
+(* ... and that outcome is one the statement allows *)
+Theorem C07_outcome : forall p : prog, outcome_okb p (model_outcome p) = true.
 Proof. exact model_outcome_ok. Qed.
 Print Assumptions C07_outcome.
 
@@ -108,10 +100,9 @@ Proof. exact exp_raised_nth. Qed.
 Print Assumptions C07_assert_iff.
 
 (* expectThat: a mismatch makes the test a failure once it has finished, whatever else the test does before or
-   afterwards - skip, expected failure, unexpected success, error, in the test method, tearDown or a cleanup,
-   the expectThat itself standing in any of them - provided setUp returns (finding F21 otherwise) *)
-Theorem C07_expect : forall p : prog, NoDup (map fst (p_pre p)) ->
-  setup_raises p = false -> expect_failed p = true ->
+   afterwards - skip, expected failure, unexpected success, error, in setUp, the test method, tearDown or a
+   cleanup, the expectThat itself standing in any of them that ran; and every function that has to run ran *)
+Theorem C07_expect : forall p : prog, NoDup (map fst (p_pre p)) -> expect_failed p = true ->
   r_outcome (run_test p) = Failure /\ r_raised (run_test p) = map exp_raised (phases p).
 Proof. exact expect_forces_failure. Qed.
 Print Assumptions C07_expect.
@@ -150,7 +141,10 @@ Example C07_example :
                   p_teardown := [{| s_kind := AssertThat; s_mis := None |}];
                   p_cleanups := [[{| s_kind := Raise XXFail; s_mis := None |}]] |} in
       r_outcome (run_test p) = Failure /\ r_raised (run_test p) = [[]; [false; true]; [false]; [true]]
-      /\ setup_raises p = false /\ expect_failed p = true)
+      /\ expect_failed p = true)
+  (* the expectation fails in setUp, setUp then skips: the test method does not run, the test is a failure *)
+  /\ (r_outcome (run_test witness_F21) = Failure /\ r_raised (run_test witness_F21) = [[false; true]]
+      /\ expect_failed witness_F21 = true)
   (* without the expectation the exception caught last decides *)
   /\ r_outcome (run_test {| p_pre := []; p_setup := []; p_body := [{| s_kind := Raise XSkip; s_mis := None |}];
                             p_teardown := []; p_cleanups := [[{| s_kind := Raise XXFail; s_mis := None |}]] |}) = ExpFailure.
